@@ -1,6 +1,7 @@
 //! Correspondence harness: runs the production rodbus code on case lines (stdin) and prints one
 //! canonical output line per case (stdout). See /verif/PROTOCOL.md for the line formats.
 mod client;
+mod life;
 mod mockio;
 mod points;
 mod util;
@@ -307,6 +308,7 @@ async fn run_case(line: &str) -> String {
         "srv" => run_srv(&tok).await,
         "rdr" => run_rdr(&tok).await,
         "cl" => client::run_cl(&tok).await,
+        "life" => life::run_life(&tok).await,
         other => format!("unknown-suite {other}"),
     }
 }
@@ -346,9 +348,11 @@ fn main() {
             continue;
         }
         // a fresh paused-clock current-thread runtime per case: cases cannot influence each other
+        // network suites use real sockets and therefore the real clock
+        let real_time = line.starts_with("life ") || line.starts_with("net ") || line.starts_with("tls ");
         let rt = tokio::runtime::Builder::new_current_thread()
             .enable_all()
-            .start_paused(true)
+            .start_paused(!real_time)
             .build()
             .unwrap();
         let res = std::panic::catch_unwind(std::panic::AssertUnwindSafe(|| {
